@@ -756,7 +756,9 @@ func (progBldr *ProgBuilder) Eq(ctx *context) {
 
 	switch {
 	// test if d2 (leftmost) is nodeset -> handle leaflist evaluation
-	case isDS:
+	// (inside a predicate; outside, multi-valued operands on either side
+	// are handled by the common comparison code like for '!=', '<', ...)
+	case isDS && ctx.predicateCount > 0:
 		ctx.isLeafListFilter = true
 		ds := d2.DatumSlice("leaflistfilter")
 		for _, datum := range ds {
